@@ -9,5 +9,7 @@ CONSTANTS N = 2
   G_SCALAR = TRUE
   G_STMFIRST = TRUE
   G_CHAIN = TRUE
+  G_GLOBDEPTH = FALSE
+INVARIANTS NoOverflow WorkBounded ChainBounded
 PROPERTY Termination
 CHECK_DEADLOCK FALSE
